@@ -9,7 +9,8 @@ cfb_wrap(streams, version=3, rng=None, **layout) -> bytes     minimal MS-CFB v3/
 
 wb (dict; every key optional except "sheets"):
   "date1904": bool                      DATE1904 record (0x0022), omitted when False unless opts["always_1904"]
-  "codepage": 1200 | other | None       CODEPAGE record (0x0042); None omits it
+  "codepage": 1200 | other | None       CODEPAGE record (0x0042); None omits it; key absent: a value of CODEPAGES
+                                        (or no record) chosen by a hash of wb - BIFF8 text never depends on it
   "formats": {ifmt: "format string"}    FORMAT records (0x041E)
   "xfs": [ifmt, ...]                    one XF record (0x00E0) each; a cell's "xf" is an index in this list
   "sst": [str | [utf16 units] | dict, ...]   SST (0x00FC) + CONTINUE (0x003C); see opts["sst_cut"].  A dict entry is an
@@ -479,12 +480,25 @@ def sst_records(strings, cut=None, rng=None, stats=None):
     return rec(0x00FC, bytes(frags[0])) + b"".join(rec(0x003C, bytes(f)) for f in frags[1:])
 
 # ------------------------------------------------------------------ workbook stream
+# The CodePage record ([MS-XLS] 2.4.52) of a BIFF8 workbook may name any code page - Excel writes 1200,
+# JExcelApi 1252 (tests/sheet_name_parsing.xls of the repository), localised writers their ANSI / DBCS
+# page, some UTF-8 - or be missing; BIFF8 text is Unicode whatever it says (audit-2 finding XLS-1: the
+# reader used to decode every string through it).  A workbook description without a "codepage" key gets
+# one of these, chosen by a hash of the description (no PRNG draw: the callers' case sequences stay as
+# they were); 437 / 0 / 54321 / 65535 are values the `codepage` crate does not know.
+CODEPAGES = [1200, 1200, 1200, 1252, 1252, 1251, 1250, 932, 936, 949, 950, 874, 65001, 10000, 1201, 437,
+             0, 54321, 65535, None, None]
+
+def default_codepage(wb):
+    import zlib
+    return CODEPAGES[zlib.crc32(repr(sorted((k, repr(v)) for k, v in wb.items())).encode("utf-8", "replace")) % len(CODEPAGES)]
+
 def workbook_stream(wb, opts=None, rng=None):
     opts = opts or {}
     pre = bof(0x0005)
     if wb.get("filepass") is not None:
         pre += rec(0x002F, wb["filepass"])
-    cp = wb.get("codepage", 1200)
+    cp = wb["codepage"] if "codepage" in wb else default_codepage(wb)
     if cp is not None:
         pre += rec(0x0042, struct.pack("<H", cp))
     if wb.get("date1904") or opts.get("always_1904"):
